@@ -16,6 +16,9 @@ def cstr(s):
 
 def jobs(tier):
     J = []
+    import os
+    if not os.environ.get('VERIF_EXPERIMENTAL'):
+        return J   # measured (DESIGN 6.3): no job of this kernel gives a verdict within 40 min / 8 GB (the real JSON parser automaton); registered checks do not run it, nothing is claimed from it
     for sub, first in (NUM_STARTS if tier == 'thorough' else []):   # > 7 min per job even in one chunk: thorough tier only
         for i, pf in enumerate(NUM_PREFIXES[sub]):
             J.append(dict(id='number_%d_%02d' % (sub, i), harness='h_number', props=['C02'], unwind=max(9, len(pf) + 3 + 5), defs=dict(KIND=1, SUB0=sub, PRE=cstr(first), PFX=cstr(pf), NS=3), timeout=2400, mem_gb=6,
